@@ -9,6 +9,7 @@ import (
 	"github.com/hneemann/parser2/listMap"
 	"math"
 	"sort"
+	"sync/atomic"
 )
 
 // NewListConvert creates a list containing the given elements if the elements
@@ -394,6 +395,15 @@ func (l *List) Cross(sta funcGen.Stack[Value]) (*List, error) {
 	}
 }
 
+// stopWhen returns a producer that yields the items of p until stopped is set.
+func stopWhen(p iterator.Producer[Value], stopped *atomic.Bool) iterator.Producer[Value] {
+	return func(yield iterator.Consumer[Value]) {
+		p(func(v Value, err error) bool {
+			return !stopped.Load() && yield(v, err)
+		})
+	}
+}
+
 func (l *List) Merge(sta funcGen.Stack[Value]) (*List, error) {
 	other := sta.Get(1)
 	f, err := ToFunc("merge", sta, 2, 2)
@@ -402,20 +412,34 @@ func (l *List) Merge(sta funcGen.Stack[Value]) (*List, error) {
 	}
 	if otherList, ok := other.ToList(); ok {
 		return NewListFromIterable(func(st funcGen.Stack[Value]) iterator.Producer[Value] {
-			return iterator.Merge(recoverInProducer(l.iterable(funcGen.NewEmptyStack[Value]())), recoverInProducer(otherList.iterable(funcGen.NewEmptyStack[Value]())),
-				func(a, b Value) (bool, error) {
-					st.Push(a)
-					st.Push(b)
-					value, err2 := f.Func(st.CreateFrame(2), nil)
-					if err2 != nil {
-						return false, err2
+			return func(yield iterator.Consumer[Value]) {
+				// iterator.Merge reads both lists in goroutines of their own. When the
+				// consumer stops early, these goroutines are told to stop, but they go on
+				// iterating their list up to its end. To avoid this, both lists stop
+				// producing items as soon as the consumer has stopped.
+				var stopped atomic.Bool
+				defer stopped.Store(true)
+				iterator.Merge(stopWhen(recoverInProducer(l.iterable(funcGen.NewEmptyStack[Value]())), &stopped), stopWhen(recoverInProducer(otherList.iterable(funcGen.NewEmptyStack[Value]())), &stopped),
+					func(a, b Value) (bool, error) {
+						st.Push(a)
+						st.Push(b)
+						value, err2 := f.Func(st.CreateFrame(2), nil)
+						if err2 != nil {
+							return false, err2
+						}
+						if less, ok := value.(Bool); ok {
+							return bool(less), nil
+						} else {
+							return false, errors.New("function in merge needs to return a bool, (a<b)")
+						}
+					})(func(v Value, err error) bool {
+					if !yield(v, err) {
+						stopped.Store(true)
+						return false
 					}
-					if less, ok := value.(Bool); ok {
-						return bool(less), nil
-					} else {
-						return false, errors.New("function in merge needs to return a bool, (a<b)")
-					}
+					return true
 				})
+			}
 		}), nil
 	} else {
 		return nil, errors.New("first argument in merge needs to be a list")
